@@ -225,6 +225,19 @@ def directed_search(ck, T, diag, prop="C01"):
     return found
 
 
+def runtime_obligations(ck, tab):
+    """the generateDS runtime functions the model mirrors (constructor casts, attribute lookup, tag matching, number
+    formatting/parsing, string validation, the export/build/factory templates) are textually the ones the model was
+    written against (ast.unparse normal form); a change there is a named broken obligation and the all-classes
+    correspondence of the same run looks for the failing input"""
+    import os
+    from lib.vcommon import VERIF
+    ref = json.load(open(os.path.join(VERIF, "lib", "runtime_ref.json")))
+    for k, v in ref.items():
+        ck.oblige("runtime:%s is the modelled one" % k, tab["runtime"].get(k) == v,
+                  "found: %s" % json.dumps(tab["runtime"].get(k))[:600], kind="instance")
+
+
 def directed_by_errors(ck, T, errors, prop="C01"):
     """the translator refused a statement of some class: exercise exactly those classes on the real code
     (several instances in one process, every member populated, alone and inside a document)"""
@@ -297,6 +310,7 @@ def run(ck):
         return
     T = bindings.Tables(tab)
     glue_facts(ck)
+    runtime_obligations(ck, tab)
     if tab["errors"]:
         directed_by_errors(ck, T, tab["errors"])
     if wf_obligations(ck, T):
